@@ -68,12 +68,20 @@ class Real:
         self.coords = {0: np.zeros(self.n)}      # pid -> relative coordinates (points[k])
         self.abs_saved = {}                      # pid -> absolute coordinates handed to save_point
         self.next_pid = 1
+        self.slot_pid = {0: 0}                   # the harness's own record of which point was WRITTEN to which row (used only to
+                                                 # choose among points with bit-identical coordinates, which rounded draws produce)
 
     def objective(self, r, xabs):
         v = float(np.dot(r, r))
         if self.h is not None:
             v += self.h(xabs)
         return v
+
+    def pid_of_slot(self, k):
+        """identity of the point in row k: the harness's record if its coordinates match bit for bit, else by coordinates"""
+        b = self.model.points[k, :].tobytes()
+        cands = [q for q in self.coords if self.coords[q].tobytes() == b]
+        return self.slot_pid.get(k) if self.slot_pid.get(k) in cands else (max(cands) if cands else -1)
 
     def pid_of(self, vec, table):
         b = vec.tobytes()
@@ -87,7 +95,9 @@ class Real:
         npt = md.npt()
         slots = []
         for k in range(npt):
-            pid = self.pid_of(md.points[k, :], self.coords)
+            b = md.points[k, :].tobytes()
+            cands = [q for q in self.coords if self.coords[q].tobytes() == b]
+            pid = self.slot_pid.get(k) if self.slot_pid.get(k) in cands else (max(cands) if cands else -1)
             slots.append("%d:%s:%d:%d:%s" % (pid, fkey(md.objval[k]), int(md.nsamples[k]), int(md.eval_num[k]),
                                               ",".join(fbits(v) for v in md.fval_v[k, :])))
         jac = "-" if md.model_jac_eval_nums is None else ",".join(str(int(v)) for v in md.model_jac_eval_nums)
@@ -95,7 +105,10 @@ class Real:
             saved = "-"
         else:
             sj = "-" if md.jacsave_eval_nums is None else ",".join(str(int(v)) for v in md.jacsave_eval_nums)
-            saved = "%d:%s:%d:%d:%s:%s" % (self.pid_of(md.xsave, self.abs_saved), fkey(md.objsave), int(md.nsamples_save),
+            sb = md.xsave.tobytes()
+            scands = [q for q in self.abs_saved if self.abs_saved[q].tobytes() == sb]
+            spid = getattr(self, "saved_pid", None) if getattr(self, "saved_pid", None) in scands else (max(scands) if scands else -1)
+            saved = "%d:%s:%d:%d:%s:%s" % (spid, fkey(md.objsave), int(md.nsamples_save),
                                             int(md.eval_num_save), ",".join(fbits(v) for v in md.rsave), sj)
         return "cap=%d kopt=%d fact=%d jac=%s saved=%s slots=%s" % (md.num_pts, int(md.kopt), 1 if md.factorisation_current else 0,
                                                                      jac, saved, ";".join(slots))
@@ -106,9 +119,10 @@ class Real:
         # identify the returned point: incumbent (absolute coords of kopt) or the saved one
         xo = md.xopt(abs_coordinates=True)
         if md.objsave is not None and x.tobytes() == md.xsave.tobytes() and not (x.tobytes() == xo.tobytes() and int(en) == int(md.eval_num[md.kopt])):
-            pid = self.pid_of(x, self.abs_saved)
+            scands = [q for q in self.abs_saved if self.abs_saved[q].tobytes() == x.tobytes()]
+            pid = getattr(self, "saved_pid", None) if getattr(self, "saved_pid", None) in scands else (max(scands) if scands else -1)
         else:
-            pid = self.pid_of(md.points[md.kopt, :], self.coords) if x.tobytes() == xo.tobytes() else -2
+            pid = self.pid_of_slot(int(md.kopt)) if x.tobytes() == xo.tobytes() else -2
         jn = "-" if jn is None else ",".join(str(int(v)) for v in jn)
         return "final %d:%s:%d:%d:%s:%s" % (pid, fkey(obj), int(ns), int(en), ",".join(fbits(v) for v in r), jn)
 
@@ -143,6 +157,7 @@ def gen_sequence(dfols, rng, length, with_h):
                 lines.append(line_fn(v))
                 md.change_point(k, x, r, en, allow_kopt_update=allow)
                 R.coords[pid] = x.copy()
+                R.slot_pid[k] = pid
                 R.pool.append(r)
                 real.append("ok " + R.digest())
             elif c < 0.53:
@@ -167,6 +182,7 @@ def gen_sequence(dfols, rng, length, with_h):
                 descr.append(("swap", k1, k2))
                 lines.append("mswap %d %d" % (k1, k2))
                 md.swap_points(k1, k2)
+                R.slot_pid[k1], R.slot_pid[k2] = R.slot_pid.get(k2), R.slot_pid.get(k1)
                 real.append("ok " + R.digest())
             elif c < 0.68:
                 if md.npt_so_far < md.num_pts:
@@ -180,6 +196,7 @@ def gen_sequence(dfols, rng, length, with_h):
                 lines.append("maddpt %d %s %d %s" % (pid, fkey(R.objective(r, md.xbase + x)), en, " ".join(fbits_raw(t) for t in r)))
                 md.add_new_point(x, r, en)
                 R.coords[pid] = x.copy()
+                R.slot_pid[md.npt() - 1] = pid
                 real.append("ok " + R.digest())
             elif c < 0.73:
                 shift = np.round(rng.normal(size=R.n), 2)
@@ -194,12 +211,17 @@ def gen_sequence(dfols, rng, length, with_h):
                 k0 = int(md.kopt)
                 xabs = md.xopt(abs_coordinates=True)
                 rview = md.ropt()
-                pid = R.pid_of(md.points[k0, :], R.coords)     # the saved point IS the incumbent: same identity
+                pid = R.pid_of_slot(int(k0))     # the saved point IS the incumbent: same identity
                 descr.append(("saveopt", pid))
                 lines.append("msave %d %s %d %d %s" % (pid, fkey(R.objective(rview, xabs)), int(md.nsamples[k0]), int(md.eval_num[k0]),
                                                         " ".join(fbits_raw(t) for t in rview)))
-                R.abs_saved[pid] = xabs.copy()
+                xabs_copy = xabs.copy()
                 acc = md.save_point(xabs, rview, int(md.nsamples[k0]), int(md.eval_num[k0]), x_in_abs_coords=True)
+                if acc:
+                    # (recorded only when the save was accepted: the same incumbent offered again after base shifts has absolute
+                    #  coordinates that differ by rounding, and a REJECTED offer must not replace the record of the kept one)
+                    R.abs_saved[pid] = xabs_copy
+                    R.saved_pid = pid
                 real.append("ok saved=%d %s" % (1 if acc else 0, R.digest()))
             elif c < 0.85:
                 x = np.round(rng.normal(size=R.n), 3)
@@ -212,6 +234,8 @@ def gen_sequence(dfols, rng, length, with_h):
                 lines.append("msave %d %s %d %d %s" % (pid, fkey(R.objective(r, x)), ns, en, " ".join(fbits_raw(t) for t in r)))
                 R.abs_saved[pid] = x.copy()
                 acc = md.save_point(x, r, ns, en, x_in_abs_coords=True)
+                if acc:
+                    R.saved_pid = pid
                 real.append("ok saved=%d %s" % (1 if acc else 0, R.digest()))
             elif c < 0.92:
                 descr.append(("interp",))
